@@ -12,11 +12,11 @@ import (
 // (an exported helper was renamed or re-shaped): the checks then run their Reconcile-level twins only.
 func c03Helper(t *testing.T, run *h.Run, maxN int) bool { return false }
 
-func c06HelperAvailable() bool                            { return false }
+func c06HelperAvailable() bool                         { return false }
 func c06HelperOne(t *testing.T, run *h.Run, c c06Case) {}
 
-func c09HelperAvailable() bool                            { return false }
+func c09HelperAvailable() bool                         { return false }
 func c09HelperOne(t *testing.T, run *h.Run, c c09Case) {}
 
-func c17HelperAvailable() bool                          { return false }
+func c17HelperAvailable() bool                      { return false }
 func c17Helper(t *testing.T, run *h.Run, c c17Case) {}
